@@ -374,7 +374,7 @@ def r13_5(ctx):
     pt = strip_all(t[4][0][1])
     okp = is_call(pt, 'Point2D::<T, U>::new') and trunc(pt[2][0], 'm31') and trunc(pt[2][1], 'm32')
     ctx.check(okp, R, key + '|offset', b.loc(), 'Some((m31 as i32, m32 as i32))', 'the integer offset returned is %s, expected (m31 as i32, m32 as i32)' % fmt(b, pt))
-    gs = normalized_guards(ctx, b, bi)
+    gs = shared.facts_at(ctx, b, bi)
     need = {'m11': 1.0, 'm12': 0.0, 'm21': 0.0, 'm22': 1.0}
     for name, val in need.items():
         ok = any(op == 'Eq' and ((m(a, name) and const_val(b2) == val) or (b2 is not None and m(b2, name) and const_val(a) == val)) for op, a, b2, si in gs)
